@@ -15,8 +15,10 @@
                        change also changes the mtime at ms resolution or the length"), read over
                        pairs of moments so that it also covers inode reuse.  It EXCLUDES: a same-size
                        rewrite that keeps the mtime within the same millisecond (excluded_same_ms
-                       below shows the stale answer), setting an old mtime back, `cp -p` onto a
-                       reused inode with equal length.
+                       below shows the stale answer), setting an old mtime back onto other content of
+                       the same size (KC4 below: the step-by-step reading of the proviso allows it), `cp -p`
+                       onto a reused inode with equal length.  C12_same_result_hashed_moments weakens it to
+                       collisions between a HASHED moment and the present.
      nul_free          the transform command strings contain no NUL byte (they are command line arguments);
                        with it "the tree id determines the transform configuration" is a theorem
                        (C12_tree_id_injective), no longer a hypothesis.
@@ -71,6 +73,21 @@ Theorem C12_same_result :
 Proof. exact same_result_nul_free. Qed.
 Print Assumptions C12_same_result.
 
+(* The sharp form of the proviso for the unmodified code: only a collision between a moment at which SOME RUN HASHED
+   (the only possible origin of an entry) and the present can matter.  Strictly weaker hypothesis than
+   stamp_determines: stamps may return to values they had in states that no run ever saw. *)
+Theorem C12_same_result_hashed_moments :
+  forall (H : N -> bytes -> hashv) (T : tconf -> bytes -> option bytes)
+         (h : list event) (w0 : world) (a : N) (tr : option tconf) (R : Type) (p : prog R),
+  (forall w1 w2 id i1 i2, In w1 (run_moments H T ([], w0) h) -> In w2 [snd (exec H T ([], w0) h)] ->
+     inode_of w1 id = Some i1 -> inode_of w2 id = Some i2 ->
+     code_ms (i_mtime i1) = code_ms (i_mtime i2) -> nlen (i_data i1) = nlen (i_data i2) -> i_data i1 = i_data i2) ->
+  nul_free ((a, tr) :: confs h) -> nofail p ->
+  fst (run_cached H T a tr p (fst (exec H T ([], w0) h)) (snd (exec H T ([], w0) h)))
+  = run_plain H T a tr p (snd (exec H T ([], w0) h)).
+Proof. exact same_result_hashed_moments_nul_free. Qed.
+Print Assumptions C12_same_result_hashed_moments.
+
 (* The same with the mtime rounded DOWN to milliseconds (the usual reading of "millisecond resolution"). *)
 Theorem C12_same_result_rounded_down :
   forall (H : N -> bytes -> hashv) (T : tconf -> bytes -> option bytes)
@@ -113,6 +130,42 @@ Proof.
   exact (fun ws => conj (stamp_determines_b_sound ws) (conj (mtime_determines_b_sound ws) (preepoch_fraction_b_sound ws))).
 Qed.
 Print Assumptions C12_checkers_sound.
+
+(* ---- KC4, the limit of the guarantee: RETURNING STAMPS.  If the proviso is read step by step ("each content change
+        changes the mtime or length relative to the state before it": stepwise_b) instead of pairwise, a touch followed
+        by a same-size rewrite that sets the first mtime back satisfies it, and the entry of the first state is served
+        unless something re-hashed the same key in between. ---- *)
+Lemma C12_KC4_witness :
+  stepwise_b (moments Hx Tid ([], empty_world) hRet) = true /\
+  stamp_determines_b (moments Hx Tid ([], empty_world) hRet) = false /\
+  nofail (probe 1 0 3) /\
+  cached_answer Hx Tid hRet 0 None (probe 1 0 3) = RHash (Hx 0 [97; 98; 99]) /\
+  plain_answer Hx Tid hRet 0 None (probe 1 0 3) = RHash (Hx 0 [97; 98; 100]).
+Proof. exact returning_stamp_stale. Qed.
+
+(* run; touch; run; rewrite with the first mtime; run — safe, because put overwrote the entry in the touched state *)
+Example C12_returning_stamp_refreshed :
+  stepwise_b (moments Hx Tid ([], empty_world) hRetRefreshed) = true /\
+  stamp_determines_b (moments Hx Tid ([], empty_world) hRetRefreshed) = false /\
+  lookup (tree_of 0 None) (id7, 0, 3) (fst (state_after hRetRefreshed)) = Some (mkE 6%Z 3 3 (Hx 0 [97; 98; 99])) /\
+  cached_answer Hx Tid hRetRefreshed 0 None (probe 1 0 3) = plain_answer Hx Tid hRetRefreshed 0 None (probe 1 0 3).
+Proof. exact returning_stamp_refreshed. Qed.
+
+(* ... but stale again when the refreshing write was lost in a crash, or the middle run used another algorithm *)
+Example C12_returning_stamp_not_refreshed :
+  cached_answer Hx Tid hRetLost 0 None (probe 1 0 3) = RHash (Hx 0 [97; 98; 99]) /\
+  plain_answer Hx Tid hRetLost 0 None (probe 1 0 3) = RHash (Hx 0 [97; 98; 100]) /\
+  stepwise_b (moments Hx Tid ([], empty_world) hRetOtherAlgo) = true /\
+  cached_answer Hx Tid hRetOtherAlgo 0 None (probe 1 0 3) = RHash (Hx 0 [97; 98; 99]) /\
+  plain_answer Hx Tid hRetOtherAlgo 0 None (probe 1 0 3) = RHash (Hx 0 [97; 98; 100]).
+Proof. exact returning_stamp_not_refreshed. Qed.
+
+(* a stamp returning to a state that no run hashed: pairwise hypothesis false, the sharp one true, answers equal *)
+Example C12_returning_stamp_unhashed :
+  stamp_determines_b (moments Hx Tid ([], empty_world) hRetUnhashed) = false /\
+  stamp_det2 (run_moments Hx Tid ([], empty_world) hRetUnhashed) [snd (state_after hRetUnhashed)] /\
+  cached_answer Hx Tid hRetUnhashed 0 None (probe 1 0 3) = plain_answer Hx Tid hRetUnhashed 0 None (probe 1 0 3).
+Proof. exact returning_stamp_unhashed. Qed.
 
 (* ---- regression examples for the repaired classes ---- *)
 (* mtimes before the epoch get distinct (negative) stamps: the rewrite from -5 s to -9 s is seen *)
